@@ -1,18 +1,24 @@
 (* C18 — restore never touches anything outside the target directory. Statements only. *)
-From Restic Require Import Base.Prelude Model.C18m Proofs.C18p Proofs.C18p_main Proofs.C18p_top.
+From Restic Require Import Base.Prelude Model.C18m Proofs.C18p Proofs.C18p_main Proofs.C18p_top Proofs.C18p_static Proofs.C18p_final.
 Import C18m.
 
 (* Main theorem.  For every file system [fs] (arbitrary pre-existing content: symlinks to anywhere at any
    position, files where directories are expected, ...), every target T = P/t whose parent P consists of
-   real directories, every snapshot tree (arbitrary names, duplicates, unordered, symlink nodes), every
-   SelectFilter, --delete and overwrite mode: whenever the traversal's event list passes the static
-   well-formedness check, RestoreTo leaves every path that is not T or below T exactly as it was. *)
+   real directories, every snapshot tree (arbitrary names: '..', '.', with separators, duplicates, unordered;
+   symlink, fifo, socket nodes), every SelectFilter (include, exclude, none), --delete and every overwrite
+   mode: RestoreTo leaves every path that is not T or below T exactly as it was. *)
 Theorem C18_confined : forall o sel P t tree fs,
   physdir fs P ->
-  wf_events (t_evs (traverse sel tree)) = true ->
   forall q, prefixb (P ++ [t]) q = false ->
     look (restore o sel (P ++ [t]) tree fs) q = look fs q.
-Proof. intros o sel P t tree fs HP Hwf. exact (restore_local o sel P t tree fs HP Hwf). Qed.
+Proof. intros o sel P t tree fs HP. exact (restore_local_all o sel P t tree fs HP). Qed.
+
+(* The traversal (with its ascending-name check and name check) always yields a well-formed event list:
+   visited leaves never lie above a directory that is used, leaf positions are pairwise distinct, a
+   leaveDir keeps every name below which something is used, every left directory has an ensured
+   directory at or below it. *)
+Theorem C18_traverse_wellformed : forall sel tree, Good (t_evs (traverse sel tree)).
+Proof. exact traverse_good. Qed.
 
 (* ensureDir below a real directory always succeeds, yields a real directory, changes only that path and
    never turns a directory into something else. *)
@@ -43,6 +49,7 @@ Theorem C18_oracle_sound : forall c, check_C18 c = true ->
 Proof. exact check_C18_sound. Qed.
 
 Print Assumptions C18_confined.
+Print Assumptions C18_traverse_wellformed.
 Print Assumptions C18_ensure_dir.
 Print Assumptions C18_ensure_chain.
 Print Assumptions C18_resolve_real.
